@@ -53,6 +53,10 @@ class SpecRuntimeError(Exception):
     pass
 
 
+class SkipClause(Exception):
+    """The clause speaks about ghost state / uninterpreted views that do not exist at run time."""
+
+
 # adapters: how a modelled field is read from the real object when the real attribute has
 # another representation (timedelta -> int seconds) or is a ghost view.
 def _seconds(x):
@@ -237,7 +241,11 @@ class NEval:
     def ev_Attribute(self, node):
         if isinstance(node.value, ast.Name) and node.value.id == "ghost":
             env = self.old_env if self.in_old else self.env
+            if node.attr not in env.get("__ghost__", {}):
+                raise SkipClause(f"ghost.{node.attr}")
             return env["__ghost__"][node.attr]
+        if node.attr.startswith("g_"):
+            raise SkipClause(node.attr)
         base = self.ev(node.value)
         if isinstance(base, type) and issubclass(base, enum.Enum):
             return base[node.attr]
@@ -553,7 +561,19 @@ class NEval:
         return self.eq(new, old)
 
     def fn_uf(self, node):
-        raise SpecRuntimeError("uninterpreted function in a run-time checked clause")
+        raise SkipClause("uninterpreted function")
+
+    def fn_nameset(self, node):
+        return {self.getattr_(x, "name") for x in self.ev(node.args[0])}
+
+    def fn_fold_hint(self, node):
+        return True
+
+    def fn_card_in(self, node):
+        return len(set(self.ev(node.args[0])) & set(self.ev(node.args[1])))
+
+    def fn_loop_old(self, node):
+        raise SkipClause("loop_old")
 
 
 def check_call(S, key, func, args, kwargs=None, ghost=None, globals_=None, extra_roots=(), skip_requires=False):
@@ -580,6 +600,7 @@ def check_call(S, key, func, args, kwargs=None, ghost=None, globals_=None, extra
     old_env["__universe__"] = reachable(list(old_env.values()))
     out = {"key": key, "pre_ok": True, "ok": True, "failed": [], "exception": None}
     pre = NEval(S, c, env, env, None, globals_)
+    out["skipped"] = []
     if not skip_requires:
         for text in c.requires:
             try:
@@ -587,6 +608,8 @@ def check_call(S, key, func, args, kwargs=None, ghost=None, globals_=None, extra
                     out["pre_ok"] = False
                     out["failed_pre"] = text
                     return out
+            except SkipClause:
+                continue
             except SpecRuntimeError as exc:
                 out["pre_ok"] = False
                 out["failed_pre"] = f"{text}: {exc}"
@@ -597,7 +620,10 @@ def check_call(S, key, func, args, kwargs=None, ghost=None, globals_=None, extra
     except BaseException as e:   # noqa: B902 - SystemExit is a modelled outcome
         result, exc = None, e
     env2 = dict(env)
-    env2["result"] = result if not c.qualname.endswith("__init__") else env.get("self")
+    rv = result if not c.qualname.endswith("__init__") else env.get("self")
+    env2["retval"] = rv
+    if "result" not in names:
+        env2["result"] = rv
     env2["__universe__"] = reachable(list(env2.values()) + list(extra_roots))
     post = NEval(S, c, env2, old_env, snap, globals_)
     if exc is None:
@@ -610,6 +636,8 @@ def check_call(S, key, func, args, kwargs=None, ghost=None, globals_=None, extra
                     if all(oe.clause(t) for t in spec["when"]):
                         out["ok"] = False
                         out["failed"].append(f"returned normally although `{' and '.join(spec['when'])}` (must raise {ename})")
+                except SkipClause:
+                    pass
                 except SpecRuntimeError as e2:
                     out["failed"].append(f"spec error: {e2}")
     else:
@@ -631,6 +659,8 @@ def check_call(S, key, func, args, kwargs=None, ghost=None, globals_=None, extra
                 if not oe.clause(t):
                     out["ok"] = False
                     out["failed"].append(f"{ename} raised although not `{t}`")
+            except SkipClause:
+                pass
             except SpecRuntimeError as e2:
                 out["failed"].append(f"spec error: {e2}")
     for text in clauses:
@@ -638,6 +668,8 @@ def check_call(S, key, func, args, kwargs=None, ghost=None, globals_=None, extra
             if not post.clause(text):
                 out["ok"] = False
                 out["failed"].append(text)
+        except SkipClause as sk:
+            out["skipped"].append(text[:60])
         except SpecRuntimeError as e2:
             out["ok"] = False
             out["failed"].append(f"spec error in `{text[:60]}`: {e2}")
